@@ -118,16 +118,16 @@ func runC18(c *core.Ctx) core.Meta {
 			if !ok {
 				c.ReportAt("R18.5", fn, in.Pos(), "Send:"+r.out+":Dst", fmt.Sprintf("forwarded request is addressed to %q; required %q", metas["Dst"], wantDst))
 			}
-			// record
+			// record (in this function or in a helper it calls: parameters are resolved through the call sites)
+			want := "append(recv." + r.table + ",[rdma.transaction{" + r.from + ":" + peek + "," + r.to + ":" + sent + "}])"
 			var rec string
-			for _, b := range fn.Blocks {
-				for _, i2 := range b.Instrs {
-					if s, ok := storeToField(i2, "Comp."+r.table); ok {
-						rec = prov.Of(s.Val)
+			p.Instrs(func(f2 *ssa.Function, i2 ssa.Instruction) {
+				if s, ok := storeToField(i2, "Comp."+r.table); ok {
+					if pv := prov.Of(s.Val); pv == want || (rec == "" && strings.HasPrefix(pv, "append(recv."+r.table+",[")) {
+						rec = pv
 					}
 				}
-			}
-			want := "append(recv." + r.table + ",[rdma.transaction{" + r.from + ":" + peek + "," + r.to + ":" + sent + "}])"
+			})
 			if rec != want {
 				report("record", fmt.Sprintf("the forwarded request is not recorded as %s (got %s)", short(want), short(rec)))
 			} else {
@@ -145,15 +145,15 @@ func runC18(c *core.Ctx) core.Meta {
 			} else {
 				st3.Ob(true)
 			}
+			want := "append(recv." + r.table + "[:" + find + "],recv." + r.table + "[(" + find + "+1):])"
 			var rem string
-			for _, b := range fn.Blocks {
-				for _, i2 := range b.Instrs {
-					if s, ok := storeToField(i2, "Comp."+r.table); ok {
-						rem = prov.Of(s.Val)
+			p.Instrs(func(f2 *ssa.Function, i2 ssa.Instruction) {
+				if s, ok := storeToField(i2, "Comp."+r.table); ok {
+					if pv := prov.Of(s.Val); pv == want || (rem == "" && strings.HasPrefix(pv, "append(recv."+r.table+"[:")) {
+						rem = pv
 					}
 				}
-			}
-			want := "append(recv." + r.table + "[:" + find + "],recv." + r.table + "[(" + find + "+1):])"
+			})
 			if rem != want {
 				report("remove", fmt.Sprintf("the answered transaction is not removed as %s (got %s)", short(want), short(rem)))
 			} else {
